@@ -306,6 +306,8 @@ def run_c04():
         parts = pool.map(_real_extractions, [(ctx.seed * 1000 + i, nreal // 16, ctx.pick(150, 400)) for i in range(16)])
     traces = [t for p in parts for t in p[0]]
     info = [t for p in parts for t in p[1]]
+    from .repotests import repo_tests_leg
+    repo_tests_leg(ctx, DUMMY)
     rej = core.validate_traces(ctx, 'SiftLoopTrace', traces, constants=DUMMY, name='SiftLoopTrace')
     # binding self-test: corrupted copies of accepted traces must be rejected
     acc = [t for i, t in enumerate(traces) if i not in set(r[0] for r in rej) and len(t) >= 8 and t[-1]['e'] == 'Ret']
